@@ -19,6 +19,8 @@ CONDS = [
     Cond('debug_flag_ok', 'compile(p, flags=DEBUG) yields an equal selector structure and equal select() results',
          'general selector pool x 2 documents', timeout={'quick': 100, 'thorough': 600},
          parts={'quick': 3, 'thorough': 4}),
+    Cond('debug_errors_ok', 'rejected patterns are rejected identically (type, message, line, column, context) with and '
+         'without DEBUG', 'same malformed-pattern pool', timeout={'quick': 100, 'thorough': 600}, parts={'quick': 2, 'thorough': 4}),
     Cond('pretty_ok', 'pretty(compiled.selectors) terminates (probe-count bound) and equals repr up to whitespace',
          'general selector pool + 16 selectors with negative An+B terms, regex flags, quotes, brackets, nested lists; '
          'with and without a namespace map', timeout={'quick': 100, 'thorough': 600},
